@@ -92,6 +92,7 @@ type Scenario struct {
 	// sleeps ConsStallMs before it parks
 	ConsStallMs    int    `json:"cons_stall_ms,omitempty"`
 	ConsStallEvery int    `json:"cons_stall_every,omitempty"`
+	GCStormMs      int    `json:"gc_storm_ms,omitempty"`     // a goroutine of the environment forces a garbage collection every so many milliseconds (finalizers run, pools are emptied)
 	ConsStallSite  string `json:"cons_stall_site,omitempty"` // only at this hook site (e.g. "cons.dxf.save": the writer's final step)
 	Note           string `json:"note,omitempty"`
 }
@@ -111,9 +112,10 @@ type Sched struct {
 
 // Env is the process environment of the episode.
 type Env struct {
-	GOMAXPROCS int  `json:"gomaxprocs"`
-	CPUs       int  `json:"cpus"` // CPU affinity (=> runtime.NumCPU, the worker pool size)
-	Race       bool `json:"race"`
+	GOMAXPROCS int    `json:"gomaxprocs"`
+	CPUs       int    `json:"cpus"` // CPU affinity (=> runtime.NumCPU, the worker pool size)
+	Race       bool   `json:"race"`
+	TZ         string `json:"tz,omitempty"` // TZ of the process (Pacific/Kiritimati and Etc/GMT+12 are 26 hours apart: always two calendar days)
 }
 
 // Job is one top-level library call.
